@@ -81,6 +81,9 @@ impl Scenario for Hb {
             v.push(json!({"h": h, "server": chatty_frames, "client_at": [], "open_delay_ms": h * 1500}));
         }
         // heartbeats off: silence is never fatal, nothing is sent
+        // the client closes at 3 s, the server never answers and says nothing more: the close is
+        // given up twice the interval after the server's last byte (2.7 s)
+        v.push(json!({"h": 1, "server": [[900, "hb"], [1800, "hb"], [2700, "hb"]], "client_at": [], "close_at": 3000}));
         v.push(json!({"h": 0, "server": [], "client_at": []}));
         // ... also when the connection was opened with a connection timeout (it bounds the
         // handshake, not the life of the connection)
@@ -132,6 +135,10 @@ impl Scenario for Hb {
             let rest: Vec<u8> = (byte_ix % 8..8).map(|i| hbf[i]).collect();
             broker.timed.push_back(((horizon_ms0 - 1) * MS, rest));
         }
+        let close_at = p["close_at"].as_u64();
+        if close_at.is_some() {
+            broker.close_behaviour = vh::sim::broker::CloseBehaviour::Silent;
+        }
         let mut cfg = EnvConfig::default();
         let dead_peer = p["dead_peer"] == true;
         cfg.no_grants = dead_peer;
@@ -169,8 +176,9 @@ impl Scenario for Hb {
                     }
                 }
                 let now = ctx.now_ms();
-                if horizon_ms > now {
-                    ctx.sleep_ms(horizon_ms - now);
+                let until = close_at.unwrap_or(horizon_ms);
+                if until > now {
+                    ctx.sleep_ms(until - now);
                 }
                 ctx.forget(ch);
                 let r = conn.close();
@@ -271,6 +279,12 @@ impl Scenario for Hb {
             }
             last_w = (*t).max(last_w);
         }
+        // (once the client's Connection.Close is out, that is the last frame it ever writes - C08 -
+        // so the obligation to keep sending ends there)
+        let alive_until = match p["close_at"].as_u64() {
+            Some(c) => alive_until.min(c * MS),
+            None => alive_until,
+        };
         if alive_until > last_w + hn + g {
             v.push(("hb:client-silent-too-long".into(), format!("no client byte after {} ms although alive until {} ms (h = {} s)", last_w / MS, alive_until / MS, h)));
         }
@@ -550,6 +564,8 @@ impl Scenario for Tuned {
             ((1, 4096, 2), (65535, 131072, 3)),
             ((0, 4095, 1), (0, 8192, 1)),
             ((7, 8192, 1), (7, 4095, 1)),
+            // intervals whose double does not fit 16 bits
+            ((3, 4096, 40000), (5, 4096, 32769)),
         ];
         if tier == "thorough" {
             pairs.extend([((65535, u32::MAX, 65535), (2, 4096, 1)), ((2, 4096, 1), (65535, u32::MAX, 65535)), ((0, 131072, 1), (3, 0, 2)), ((4, 0, 2), (0, 4104, 0))]);
@@ -559,6 +575,9 @@ impl Scenario for Tuned {
         // whichever side asked for the lower value
         v.push(json!({"client": [0, 0, 60], "server": [3, 4096, 1], "silent": true}));
         v.push(json!({"client": [2, 8192, 2], "server": [0, 0, 60], "silent": true}));
+        // ... also when the silence begins with the client's own Connection.Close (never answered):
+        // the close is given up after twice the interval
+        v.push(json!({"client": [0, 0, 60], "server": [3, 4096, 1], "silent": true, "close_at_once": true}));
         // the server takes one and a half announced intervals between TuneOk and OpenOk: the
         // interval is in force from TuneOk on, and still is once the connection is open
         v.push(json!({"client": [0, 0, 60], "server": [3, 4096, 1], "slow_open": true}));
@@ -601,6 +620,10 @@ impl Scenario for Tuned {
             if n % 8 != 0 {
                 broker.timed.push_back(((delay + end) * MS, (n % 8..8).map(|k| hbf[k]).collect()));
             }
+        }
+        let close_at_once = p["close_at_once"] == true;
+        if close_at_once {
+            broker.close_behaviour = vh::sim::broker::CloseBehaviour::Silent;
         }
         let mut cfg = EnvConfig::default();
         cfg.horizon_ns = 400_000 * 1000 * MS;
@@ -663,7 +686,9 @@ impl Scenario for Tuned {
                 let t0 = ctx.now_ms();
                 ctx.log(format!("idle from {}", t0));
                 let idle = if hb > 0 { 3 * hb * 1000 + 200 } else { 200_000 };
-                ctx.sleep_ms(idle);
+                if !close_at_once {
+                    ctx.sleep_ms(idle);
+                }
                 ctx.log(format!("idle until {}", ctx.now_ms()));
                 ctx.forget(top);
                 let r = conn.close();
